@@ -23,6 +23,10 @@ Frac(n) == [k |-> "frac", n |-> n]
 \* b64: number of bytes the text denotes as base64, -1 if it is no valid base64 text
 Str(s, len, ascii, b64) == [k |-> "str", s |-> s, len |-> len, ascii |-> ascii, b64 |-> b64]
 Bool(b) == [k |-> "bool", b |-> b]
+\* the non-finite numbers a JSON decoder may hand over: the tokens NaN, Infinity, -Infinity and a literal
+\* like 1e999 ("huge", which becomes +infinity).  They are numbers by kind and members of no value set.
+Special(s) == [k |-> "special", s |-> s]
+Specials == {Special("nan"), Special("pinf"), Special("ninf"), Special("huge")}
 Null    == [k |-> "null"]
 List(xs) == [k |-> "list", xs |-> xs]
 Obj(kv) == [k |-> "obj", kv |-> kv]        \* kv: sequence of [key |-> name, val |-> payload]
@@ -60,10 +64,15 @@ HasKey(p, key) == p.k = "obj" /\ key \in Keys(p)
 (* Validate(dt, p, prev): what import + validation of JSON payload p against datainfo dt *)
 (* must yield when the current value is prev (Null when there is none): the internal     *)
 (* value, or the set of fitting error classes.                                           *)
+NoLimit == 1000000        \* alpha's stand-in for "no min / max in the datainfo" (+-sys.float_info.max)
 RECURSIVE Validate(_, _, _)
 Validate(dt, p, prev) ==
   CASE dt.t = "double" ->
-         IF ~IsNumber(p) THEN Bad(WT)
+         IF p.k = "special"                                 \* not a number / not finite: refused ...
+         THEN (IF p.s \in {"pinf", "huge"} /\ dt.hi >= NoLimit THEN Ok(Num(dt.hi))      \* ... except that a double WITHOUT
+               ELSE IF p.s = "ninf" /\ dt.lo <= -NoLimit THEN Ok(Num(dt.lo))            \* limit maps +-infinity to its
+               ELSE Bad(BV))                                                           \* largest number (documented)
+         ELSE IF ~IsNumber(p) THEN Bad(WT)
          ELSE IF 4 * dt.lo <= Key(p) /\ Key(p) <= 4 * dt.hi THEN Ok(p)
          ELSE IF p = Eps(dt.hi) THEN Ok(Num(dt.hi))        \* inside the tolerance: clamped
          ELSE Bad(RE)
@@ -424,10 +433,12 @@ DTe == [t |-> "enum", mem |-> <<[name |-> "a", val |-> 1], [name |-> "b", val |-
 DTs == [t |-> "string", minc |-> 0, maxc |-> 3, utf8 |-> FALSE]
 DTst == [t |-> "struct", mem |-> <<[name |-> "x", dt |-> DTf], [name |-> "y", dt |-> DTi]>>, opt |-> <<"y">>]
 DTa == [t |-> "array", el |-> DTi, minlen |-> 0, maxlen |-> 3]
+DTad == [t |-> "array", el |-> DTf, minlen |-> 0, maxlen |-> 2]       \* float-carrying elements
 DTb == [t |-> "bool"]
 DTsc == [t |-> "scaled", lo |-> 0, hi |-> 8]          \* gamma: ScaledInteger(0.5, 0, 4); values are the transported integers
 DTbl == [t |-> "blob", minb |-> 1, maxb |-> 3]
-DTname == [f |-> DTf, i |-> DTi, e |-> DTe, s |-> DTs, st |-> DTst, a |-> DTa, b |-> DTb, sc |-> DTsc, bl |-> DTbl]
+DTname == [f |-> DTf, i |-> DTi, e |-> DTe, s |-> DTs, st |-> DTst, a |-> DTa, b |-> DTb, sc |-> DTsc, bl |-> DTbl,
+           ad |-> DTad]
 DTp(dt) == [t |-> "tuple", els |-> <<dt, dt>>]
 DTl(dt) == [t |-> "limits", el |-> dt]
 
@@ -444,30 +455,33 @@ StX(x) == Obj(<<KV("x", x)>>)
 (* inside the tolerance, wrong kind, partial / superfluous / missing struct members, ...  *)
 Cat(dt) ==
   CASE dt.t = "double" -> {Num(dt.lo - 1), Num(dt.lo), Num(3), Num(5), Num(dt.hi), Num(dt.hi + 1),
-                           Eps(dt.hi), Frac(2), SAb, Null, List(<<Num(1)>>)}
+                           Eps(dt.hi), Frac(2), SAb, Null, List(<<Num(1)>>)} \cup Specials
     [] dt.t \in {"int", "scaled"} -> {Num(dt.lo - 1), Num(dt.lo), Num(3), Num(5), Num(dt.hi), Num(dt.hi + 1),
-                        Frac(2), SAb, Null, List(<<Num(1)>>)}
+                        Frac(2), SAb, Null, List(<<Num(1)>>), Special("nan"), Special("pinf")}
     [] dt.t = "bool" -> {Bool(TRUE), Bool(FALSE), Num(3), SAb, Null, List(<<Bool(TRUE)>>)}
     [] dt.t = "blob" -> {SB(1), SB(2), SB(3), SB(0), SB(4), SAb, Num(1), Null, List(<<SB(2)>>)}
     [] dt.t = "limits" -> {List(<<Num(2), Num(5)>>), List(<<Num(0), Num(3)>>), List(<<Num(5), Num(2)>>), List(<<Num(2)>>),
-                           Num(1), List(<<Num(2), Num(9)>>), List(<<Num(3), Num(3)>>)}
+                           Num(1), List(<<Num(2), Num(9)>>), List(<<Num(3), Num(3)>>),
+                           List(<<Num(2), Special("nan")>>), List(<<Special("ninf"), Num(5)>>), List(<<Special("nan"), Special("nan")>>)}
     [] dt.t = "enum" -> {Num(1), Num(2), Num(3), SName("a"), SName("c"), SName("zz"), Null, List(<<Num(1)>>)}
     [] dt.t = "string" -> {SAb, SXyz, SLong, SUni, Num(1), Null, List(<<SAb>>)}
     [] dt.t = "struct" -> {St(Num(3), Num(2)), St(Num(5), Num(4)), StX(Num(5)), StX(Num(0)),
                            Obj(<<KV("y", Num(4))>>), Obj(<<KV("x", Num(3)), KV("z", Num(1))>>),
                            St(Num(9), Num(2)), StX(SAb), St(Num(3), Frac(2)),
+                           StX(Special("nan")), St(Special("pinf"), Num(2)), St(Num(3), Special("nan")),
                            Num(1), List(<<Num(1), Num(2)>>), SAb, Null}
     [] dt.t = "array" -> {List(<<>>), List(<<Num(1)>>), List(<<Num(1), Num(2)>>), List(<<Num(2), Num(3), Num(4)>>),
                           List(<<Num(1), Num(2), Num(3), Num(4)>>), List(<<Num(9)>>), List(<<SAb>>),
+                          List(<<Special("nan")>>), List(<<Num(1), Special("ninf")>>),
                           Num(1), SAb, Null, Obj(<<KV("x", Num(1))>>)}
     [] dt.t = "tuple" -> {List(<<Num(2), Num(5)>>), List(<<Num(0), Num(3)>>), List(<<Num(2)>>), Num(1),
-                          List(<<Num(2), Num(9)>>)}
+                          List(<<Num(2), Num(9)>>), List(<<Special("nan"), Num(1)>>), List(<<Special("huge"), Num(5)>>)}
 Short(dt) == \* two payloads for accessibles where the payload should not matter
   CASE dt.t = "double" -> {Num(3), SAb} [] dt.t \in {"int", "scaled"} -> {Num(3), SAb} [] dt.t = "enum" -> {Num(2), Null}
     [] dt.t = "bool" -> {Bool(TRUE), SAb} [] dt.t = "blob" -> {SB(2), Num(1)} [] dt.t = "limits" -> {List(<<Num(2), Num(5)>>)}
     [] dt.t = "string" -> {SAb, Num(1)} [] dt.t = "struct" -> {St(Num(3), Num(2)), Num(1)}
     [] dt.t = "array" -> {List(<<Num(1)>>), Num(1)} [] dt.t = "tuple" -> {List(<<Num(2), Num(5)>>)}
-LimCat == {Num(2), Num(5), Num(9), SAb}
+LimCat == {Num(2), Num(5), Num(9), SAb, Special("nan"), Special("pinf"), Special("ninf")}
 
 InitOf(dt) == CASE dt.t \in {"double", "int", "scaled"} -> Num(3) [] dt.t = "enum" -> Num(1) [] dt.t = "string" -> SAb
                 [] dt.t = "bool" -> Bool(FALSE) [] dt.t = "blob" -> SB(2)
@@ -492,7 +506,7 @@ Cmd(wire, arg, ret) == [kind |-> "cmd", wire |-> wire, arg |-> arg, ret |-> ret]
 (* A: access flags and export modes x datatype, commands with an argument of the datatype *)
 ShapeA(d) == LET dt == DTname[d] IN
   [m |-> [pa |-> Par("_pa", dt, FALSE, Null, NoLim, <<>>, "none"),
-          pc |-> Par("cust", dt, FALSE, Null, NoLim, <<>>, "same"),
+          pc |-> Par("cust", dt, FALSE, Null, NoLim, <<>>, "same") @@ [short |-> TRUE],   \* (two payloads only)
           pr |-> Par("_pr", dt, TRUE, Null, NoLim, <<>>, "none"),
           \* (a constant whose transported form differs from the internal one has a shape of its own: K)
           pk |-> IF d \in {"sc", "bl"} THEN Par("_pk", dt, TRUE, Null, NoLim, <<>>, "none")
@@ -564,7 +578,7 @@ ShapeE(n) ==
   THEN [m |-> [pd |-> Par("_pd", DTi, FALSE, Null, NoLim, <<>>, "none") @@ [initvia |-> "value"],
                pe |-> Par("_pe", DTe, FALSE, Null, NoLim, <<>>, "none") @@ [initvia |-> "bare"]]]
   ELSE [m |-> [pg |-> Par("_pg", DTs, FALSE, Null, NoLim, <<>>, "none") @@ [initvia |-> "cfgvalue"],
-               pi |-> Par("_pi", DTf5, FALSE, Null, NoLim, <<>>, "none") @@ [cls |-> [hi |-> 8], via |-> "subclass", redecl |-> "datatype"],
+               pi |-> Par("_pi", DTf5, FALSE, Null, NoLim, <<>>, "none") @@ [cls |-> [hi |-> 8], via |-> "subclass", redecl |-> "datatype", short |-> TRUE],
                pj |-> Par("_pj", DTf5, FALSE, Null, NoLim, <<>>, "none") @@ [cls |-> [hi |-> 8], via |-> "subclass", redecl |-> "props"]]]
 (* K: a constant of a datatype whose transported form is not the internal one *)
 ShapeK(d) == [m |-> [pa |-> Par("_pa", DTi, FALSE, Null, NoLim, <<>>, "none"),
@@ -602,6 +616,7 @@ IdsOf(fam) ==
     [] fam = "A1" -> {<<"A", d>> : d \in {"e", "s", "a"}}
     [] fam = "B" -> {<<"B", d, drv>> : d \in DOMAIN DTname, drv \in {"same", "fixed", "absent"}}
     [] fam = "E" -> {<<"E", n>> : n \in 1 .. 5}
+    [] fam = "E0" -> {<<"E", 1>>, <<"E", 2>>}
     [] fam = "K" -> {<<"K", "sc">>, <<"K", "bl">>} \cup {<<"Kc", d>> : d \in DOMAIN ConstCase}
     [] fam = "K0" -> {<<"K", "sc">>, <<"Kc", "i0">>, <<"Kc", "e0">>, <<"Kc", "f5">>}
     [] fam = "C1" -> {<<"C", "f", "minmax", "h0", "none", "X">>, <<"C", "f", "minmax", "h1", "none", "X">>,
@@ -636,7 +651,8 @@ AccReqs(sh, m, a) ==
       nm == IF acc.wire = "" THEN a ELSE acc.wire
   IN IF acc.kind = "param"
      THEN {Req("change", m, nm, p) : p \in (IF acc.islimit /\ acc.dt.t # "limits" THEN LimCat
-                                            ELSE IF acc.ro \/ acc.wire = "" THEN Short(acc.dt) ELSE Cat(acc.dt))}
+                                            ELSE IF acc.ro \/ acc.wire = "" \/ "short" \in DOMAIN acc THEN Short(acc.dt)
+                                            ELSE Cat(acc.dt))}
           \cup {Req("do", m, nm, Null)}
           \cup {Req("read", m, nm, Null), Req("activate", m, nm, Null)}
           \cup (IF "cls" \in DOMAIN acc /\ "wire" \in DOMAIN acc.cls      \* the name the class gave, before the configuration
